@@ -619,6 +619,7 @@ class Directive:
         self.rebinds = []       # (param, newname)  R10 parameter rebind
         self.cut = None         # (anchor, return expr)  L4 prefix lifting
         self.args = []          # (anchor, new argument text)  R12 call-argument replacement
+        self.cargs = []         # (anchor, new text)  R12b closure-argument replacement
 
 
 def parse_template(text):
@@ -756,6 +757,13 @@ def parse_template(text):
                         if not mm:
                             raise LiftError("template line %d: bad arg directive %r" % (start_line, arg))
                         d.args.append((unesc(mm.group(1)), unesc(mm.group(2))))
+                    elif kw == 'carg':
+                        # R12b closure-argument replacement: like `arg`, but only the CLOSURE that starts at the anchor is
+                        # replaced; the call's other arguments (e.g. the initial value of a fold) stay verified text
+                        mm = SUB_RX.match(arg)
+                        if not mm:
+                            raise LiftError("template line %d: bad carg directive %r" % (start_line, arg))
+                        d.cargs.append((unesc(mm.group(1)), unesc(mm.group(2))))
                     elif kw == 'rebind':
                         a_, b_ = arg.split()
                         d.rebinds.append((a_, b_))
@@ -977,6 +985,33 @@ def lift_one(d, repo, canary=False, rename_suffix=None, path_map=None):
         body.replace(po + 1, pc, newarg, keep_origin=True)
         info.setdefault('args', []).append({'anchor': anchor, 'new': newarg, 'dropped_sha256': hashlib.sha256(dropped.encode()).hexdigest(), 'dropped_lines': dropped.count('\n') + 1})
         info['rules']['R12'] = info['rules'].get('R12', 0) + 1
+    for (anchor, newarg) in d.cargs:
+        offs = find_code_text(body.s, body.k, anchor)
+        if len(offs) != 1:
+            raise LiftError("%s: carg anchor %r found %d times" % (info['name'], anchor, len(offs)))
+        p0 = offs[0] + anchor.index('|')
+        q = p0 + 1
+        if body.s[q] != '|':
+            depth_ = 0
+            while q < len(body.s) and not (body.s[q] == '|' and depth_ == 0 and body.k[q] == CODE):
+                if body.k[q] == CODE and body.s[q] in OPEN:
+                    depth_ += 1
+                elif body.k[q] == CODE and body.s[q] in CLOSE:
+                    depth_ -= 1
+                q += 1
+        q += 1
+        while q < len(body.s) and body.s[q].isspace():
+            q += 1
+        if body.s.startswith('->', q):
+            q = body.s.index('{', q)
+        if body.s[q] == '{':
+            pe = match_close(body.s, body.k, q) + 1
+        else:
+            pe = end_of_expr(body.s, body.k, q)
+        dropped = body.s[p0:pe]
+        body.replace(p0, pe, newarg, keep_origin=True)
+        info.setdefault('args', []).append({'anchor': anchor, 'new': newarg, 'closure_only': True, 'dropped_sha256': hashlib.sha256(dropped.encode()).hexdigest(), 'dropped_lines': dropped.count('\n') + 1})
+        info['rules']['R12'] = info['rules'].get('R12', 0) + 1
     # explicit substitutions apply to signature + body
     for (old, new, cnt) in d.subs:
         tot = 0
@@ -1124,6 +1159,27 @@ def lift_one(d, repo, canary=False, rename_suffix=None, path_map=None):
                         depth -= 1
                     elif body.s[j] == ';' and depth == 0:
                         raise LiftError("%s: tail whole: the body is not a single expression" % info['name'])
+        elif 'last' in kv.get('_', []):
+            # structural anchor: the function's tail expression = what follows the last top-level `;` or block-statement `}`
+            at = '<tail expression>'
+            endb_ = len(body.s) - 1
+            te = endb_
+            while te > 1 and body.s[te - 1].isspace():
+                te -= 1
+            depth, last = 0, 1
+            for j in range(1, te - 1):
+                if body.k[j] == CODE:
+                    if body.s[j] in OPEN:
+                        depth += 1
+                    elif body.s[j] in CLOSE:
+                        depth -= 1
+                        if depth == 0 and body.s[j] == '}':
+                            last = j + 1
+                    elif body.s[j] == ';' and depth == 0:
+                        last = j + 1
+            p = last
+            while body.s[p].isspace() or body.k[p] == COMMENT:
+                p += 1
         else:
             at = unesc(kv['at'])
             offs = find_code_text(body.s, body.k, at)
@@ -1156,10 +1212,10 @@ def lift_one(d, repo, canary=False, rename_suffix=None, path_map=None):
         if mode == 'entry':
             body.insert(1, '\n' + txt)
         elif mode == 'after-let':
-            ms_ = [m_ for m_ in code_finditer(body.s, body.k, r'\blet\s+(?:mut\s+)?' + re.escape(anchor) + r'\b') if body.o[m_.start()] is not None]
+            ms_ = [m_ for m_ in code_finditer(body.s, body.k, r'\blet\s+(?:mut\s+)?\(?\s*(?:mut\s+)?' + re.escape(anchor) + r'\b') if body.o[m_.start()] is not None]
             if not ms_:
                 raise LiftError("%s: insert after-let: no `let %s` in the body" % (info['name'], anchor))
-            j = ms_[0].end()
+            j = ms_[0].start()
             depth = 0
             while j < len(body.s):
                 if body.k[j] == CODE:
